@@ -12,7 +12,7 @@ let remoteaddr_line line =
     let b x = if x then "1" else "0" in
     let sa = match RemoteAddr.socket_addr sh ra with Base.Ok a -> hex a | Base.Panic -> "P" in
     let st = match RemoteAddr.string_of sh ra with Base.Ok s -> hex s | Base.Panic -> "P" in
-    Printf.sprintf "%s %s %s %s %s" ctor (b (RemoteAddr.is_socket_addr sh ra)) (b (RemoteAddr.is_string sh ra)) sa st
+    Stdlib.Printf.sprintf "%s %s %s %s %s" ctor (b (RemoteAddr.is_socket_addr sh ra)) (b (RemoteAddr.is_string sh ra)) sa st
   in
   match words line with
   | [ "str"; h; flag; canon ] ->
@@ -36,23 +36,53 @@ let resid_line mode line =
       | Base.Panic -> "P")
   | [ "acc"; raw ] ->
       let r = n_of_string raw in
-      Printf.sprintf "%s %s %s" (string_of_n (ResId.adapter_id l r)) (tyc (ResId.resource_type l r)) (string_of_n (ResId.base_value l r))
+      Stdlib.Printf.sprintf "%s %s %s" (string_of_n (ResId.adapter_id l r)) (tyc (ResId.resource_type l r)) (string_of_n (ResId.base_value l r))
   | [ "tok"; raw ] ->
       let t = ResId.token_of_id l (n_of_string raw) in
-      Printf.sprintf "%s %s" (string_of_n t) (string_of_n (ResId.id_of_token l t))
+      Stdlib.Printf.sprintf "%s %s" (string_of_n t) (string_of_n (ResId.id_of_token l t))
   | [ "gen"; a; t; n ] ->
       let k = (n_of_string a, ty t) in
-      let reqs = List.init (int_of_string n) (fun _ -> k) in
-      String.concat " " (List.map string_of_n (ResId.issue l [] reqs))
+      let reqs = Stdlib.List.init (int_of_string n) (fun _ -> k) in
+      Stdlib.String.concat " " (Stdlib.List.map string_of_n (ResId.issue l [] reqs))
+  | _ -> fail_line line
+
+(* ---- C02 / C17 ----------------------------------------------------------------------------- *)
+let decoder_line mode line =
+  match words line with
+  | [ "feed"; cs ] ->
+      let chunks = Stdlib.List.map bytes_of_hex (Stdlib.String.split_on_char ';' cs) in
+      let buf = Stdlib.Buffer.create 256 in
+      let rec go k stored = function
+        | [] -> ()
+        | c :: rest -> (
+            if k > 0 then Stdlib.Buffer.add_char buf ' ';
+            match Decoder.decode mode stored c with
+            | Decoder.DOk (st, outs) ->
+                (if outs = [] then Stdlib.Buffer.add_char buf '.'
+                 else Stdlib.Buffer.add_string buf (Stdlib.String.concat "," (Stdlib.List.map hex_of_bytes outs)));
+                Stdlib.Buffer.add_string buf (Stdlib.Printf.sprintf "|%d" (Stdlib.List.length st));
+                go (k + 1) st rest
+            | Decoder.DPanic -> Stdlib.Buffer.add_string buf (Stdlib.Printf.sprintf "PANIC@%d" k)
+            | Decoder.DOutOfFuel -> Stdlib.Buffer.add_string buf (Stdlib.Printf.sprintf "OUTOFFUEL@%d" k))
+      in
+      go 0 [] chunks;
+      Stdlib.Buffer.contents buf
+  | [ "encsz"; n ] -> (
+      match Varint.enc (n_of_string n) with Some l -> hex_of_bytes l | None -> "OUTOFFUEL")
+  | [ "decsz"; h ] -> (
+      match Varint.decode_size (bytes_of_hex h) with
+      | Some (sz, used) -> Stdlib.Printf.sprintf "%s %s" (string_of_n sz) (string_of_n used)
+      | None -> "none")
   | _ -> fail_line line
 
 let () =
   let core = Sys.argv.(1) in
-  let mode = if Array.length Sys.argv > 2 && Sys.argv.(2) = "wrapping" then Base.Wrapping else Base.Checked in
+  let mode = if Stdlib.Array.length Sys.argv > 2 && Sys.argv.(2) = "wrapping" then Base.Wrapping else Base.Checked in
   let f =
     match core with
     | "remoteaddr" -> remoteaddr_line
     | "resid" -> resid_line mode
+    | "decoder" -> decoder_line mode
     | _ -> failwith ("unknown core " ^ core)
   in
   (try
